@@ -42,8 +42,11 @@ static void check_fir1(int n, double w1, double w2, int type, int winkind, vh::R
         } else if (winkind == 2) {
             win = dl::ones(len);
         } else {
-            win = dl::abs(gauss_real(r, len)) + 0.1;
-            sym_window = false;
+            //an asymmetric taper (random, or a periodic hann/hamming): the statement promises a symmetric response for every call,
+            //which the library keeps by mirroring the first half of the product
+            const int ak = int(r.below(3));
+            win = (ak == 0) ? arr_real(dl::abs(gauss_real(r, len)) + 0.1) : ((ak == 1) ? arr_real(W::hann(len, false) + 0.01) : W::hamming(len, false));
+            vh::obs_add("asymmetric_custom_windows");
         }
         h = (type < 2) ? dl::fir1(n, w1, ft[type], win) : dl::fir1(n, w1, w2, ft[type], win);
         //a window of the wrong length must be rejected
